@@ -5,6 +5,13 @@ def s(text):
     return '"' + ",".join(str(ord(c)) for c in text)
 
 
+def uns(tok):
+    """wire string token -> text"""
+    assert tok.startswith('"')
+    body = tok[1:]
+    return "".join(chr(int(x)) for x in body.split(",")) if body else ""
+
+
 def optint(x):
     return "_" if x is None else str(x)
 
